@@ -75,10 +75,12 @@ CHECKS = {
         category='model_checking',
         text='In process: product of one manager and four observers explored by TLC on reduced packs (ReplicasAgree, '
              'ReplicasAccept, ReplicaHands); the six real objects are driven together on TLC-generated and seeded boards '
-             'and TLC validates each object against its model and their agreement after every play. The network part '
-             '(bundled clients over the protocol) is under construction.',
+             'and TLC validates each object against its model and their agreement after every play. Over the protocol: '
+             'sessions of the real server with four bundled Clients under the baton; the lines each client sends, the '
+             'contract each client derives and its ObservedPlayingPhase at the end of every board are validated by '
+             'TableTrace against TableObs (ClientStream, ContractOf, FinalPlay); no client may raise.',
         design_ref='DESIGN.md 3 C11',
-        note=TRUST + 'network half not yet covered.',
+        note=TRUST + 'the baton for the network half.',
         technique='TLA+ model checking (TLC) of the replica product + multi-object trace validation'),
     'C16': dict(
         category='model_checking',
@@ -148,6 +150,60 @@ CHECKS = {
         design_ref='DESIGN.md 3 C19',
         note=TRUST + 'scripted socket semantics; case variants applied to client-to-server messages only.',
         technique='TLA+ model checking incl. liveness (TLC) + replay of all scenarios and trace validation'),
+    'C08': dict(
+        category='model_checking',
+        text='TableObs.tla gives the sequential meaning of a session (log records from Auction!Step, Play!PStep, '
+             'Score, Notation); Table.tla (PlusCal, one label per scheduling point of server.py) is checked by TLC to '
+             'write exactly those records under every interleaving of the main thread and the seat threads; real '
+             'sessions of the unmodified Server with four real Clients run under a deterministic scheduler (the '
+             'baton) with seeded decisions (any legal auction, legal and revoking play, both card notations, letter '
+             'case, alerts, passed-out boards in every position, 1-3 boards) under several schedule policies, and '
+             'TableTrace validates the parsed output file field by field against TableObs.',
+        design_ref='DESIGN.md 3 C08',
+        note=TRUST + 'the baton (controlled Event/Barrier/Queue/socket/time; put/send are not scheduling points); sessions are seeded samples.',
+        technique='TLA+ model checking of the concurrent table manager (TLC) + trace validation of real sessions run under a controlled scheduler'),
+    'C09': dict(
+        category='model_checking',
+        text='Table.tla with CPython Event/Barrier/Queue semantics: TLC checks absence of deadlock and termination under '
+             'weak fairness over ALL interleavings of main + 4 seat threads (reduced boards), and that the pinned '
+             'flag-barrier configuration deadlocks (regression). The real server is explored directly under the baton: '
+             'one thread stalled from each of many of its scheduling points for as long as any other thread can move, '
+             'seeded random / uniform schedules, 1-2 boards, passed-out and played; deadlock detection is exact (no '
+             'enabled thread), every session must end with all threads finished, End of session on all four '
+             'connections and a closed, parseable log (validated by TableTrace).',
+        design_ref='DESIGN.md 3 C09',
+        note=TRUST + 'baton semantics as specified in PyThreading/Table; schedules are sampled on the real code, exhaustive on the model.',
+        technique='TLA+ model checking incl. liveness (TLC) + systematic schedule exploration of the real server (stall injection)'),
+    'C10': dict(
+        category='model_checking',
+        text='TLC: in Table.tla the lines sent on every connection are always a prefix of, and finally equal to, '
+             'TableObs!ExpectedStream under every interleaving. Real sessions: the COMPLETE byte stream of each of the four '
+             'connections (both directions) is compared line by line by TableTrace with TableObs!ServerStream built from '
+             'the configuration and the decisions (own 13 cards only, dummy after the opening lead, relays exactly once '
+             'to every other connection, lead prompts, board header).',
+        design_ref='DESIGN.md 3 C10',
+        note=TRUST + 'as C08.',
+        technique='TLA+ model checking (TLC) + trace validation of the complete per-connection streams'),
+    'C13': dict(
+        category='model_checking',
+        text='Table.tla with Fault / Interrupts: TLC checks AbortLog (main stopped => log closed and equal to the boards '
+             'finished before) for offences in auction and play and for an operator interrupt at any queue read; the '
+             'CloseOnAbort=FALSE regression violates it. Real server: fault enumeration under the baton - illegal call, '
+             'unparseable text, wrong seat name, card not held (own or dummy\'s), garbage card, KeyboardInterrupt at a '
+             'scheduling point of main inside board k of n - the output file is then parsed and validated by TableTrace.',
+        design_ref='DESIGN.md 3 C13',
+        note=TRUST + 'interrupts inside the log writer (between its two writes) are not enumerated.',
+        technique='TLA+ model checking with fault actions (TLC) + fault enumeration on the real server under the controlled scheduler'),
+    'C20': dict(
+        category='model_checking',
+        text='Table.tla admission: arrival orders of 6-8 requests (valid, wrong version, seat taken, partner team '
+             'mismatch), every interleaving: table only grows, refused requests get exactly one error and a close, '
+             'seating as the sequential specification says, Teams line and first board follow; termination. Real '
+             'server: seeded arrival orders with raw requesters for the refused requests and real Clients for the '
+             'accepted ones; every connection\'s stream validated by TableTrace against TableObs!Verdict.',
+        design_ref='DESIGN.md 3 C20',
+        note=TRUST + 'requests arriving after the table is full are outside the statement.',
+        technique='TLA+ model checking (TLC) + trace validation of admission sessions of the real server'),
 }
 
 NOT_YET = {}
